@@ -43,6 +43,14 @@ func init() {
 	for _, id := range []string{"C09", "C10"} {
 		id := id
 		register(&Check{ID: id, Run: func(r *core.Run) { runHist(r, id) }, Replay: func(w *core.W, kind string, raw json.RawMessage) {
+			if kind == "grid" {
+				var gc gridCase
+				if json.Unmarshal(raw, &gc) == nil {
+					w.Begin("grid", &gc)
+					judgeGrid(w, &gc)
+				}
+				return
+			}
 			var c histCase
 			if err := json.Unmarshal(raw, &c); err != nil {
 				w.R.Inconclusive("replay case does not decode: " + err.Error())
@@ -282,11 +290,61 @@ func genHistCase(rng *rand.Rand, prop string) *histCase {
 	return c
 }
 
+// gridCase: very many fully static routes of one method on one instance (C10): each is answered through the
+// shortcut and must be answered by itself, however many there are.
+type gridCase struct {
+	Side   int    `json:"side"` // Side x Side routes /shard<i>/item<j>
+	Method string `json:"method"`
+}
+
+func judgeGrid(w *core.W, c *gridCase) {
+	f := flamego.NewWithLogger(io.Discard)
+	hit := -1
+	nf := false
+	f.NotFound(func() { nf = true })
+	n := 0
+	for i := 0; i < c.Side; i++ {
+		if i%16 == 0 {
+			w.Begin("grid", c)
+		}
+		for j := 0; j < c.Side; j++ {
+			id := n
+			f.Route(c.Method, fmt.Sprintf("/shard%d/item%d", i, j), []flamego.Handler{func() { hit = id }})
+			n++
+		}
+	}
+	w.CountN("grid-routes-registered", n)
+	if cnt, msg := staticTableInvariant(f); msg != "" {
+		w.Violate("table-invariant", c, msg)
+		return
+	} else if cnt > 0 {
+		w.CountN("table-entries-enumerated", cnt)
+	}
+	k := 0
+	for i := 0; i < c.Side; i++ {
+		if i%16 == 0 {
+			w.Begin("grid", c)
+		}
+		for j := 0; j < c.Side; j++ {
+			p := fmt.Sprintf("/shard%d/item%d", i, j)
+			hit, nf = -1, false
+			f.ServeHTTP(httptest.NewRecorder(), &http.Request{Method: c.Method, URL: &url.URL{Path: p}, Header: http.Header{}, RequestURI: p})
+			w.Eval()
+			if hit != k || nf {
+				w.Violate("grid", c, fmt.Sprintf("%s %s is route #%d of %d fully static routes; it was answered by route #%d (not-found ran: %v)", c.Method, p, k, n, hit, nf))
+				return
+			}
+			k++
+		}
+	}
+	w.CountN("grid-requests", k)
+}
+
 func runHist(r *core.Run, prop string) {
 	if prop == "C09" {
 		r.Rule("router histories (6-35 steps): registrations (static-biased pools; fully static, optional static, dynamic routes; single methods, method lists through Routes() and Any; one route in forty is 254-300 segments deep; AutoHead switched at random points - registrations go through Route/Routes/Any, which add no HEAD twin), Headers() calls on 30-70% of routes and again later (0-2 pairs, empty set, empty expression, never-matching expression, differently-cased names), requests with route-directed header sets (matching / non-matching / empty / missing values). Oracle: reference dispatch model restricted to routes whose latest constraint set passes (non-empty value matched by the expression, for every constrained header). non-trivial = distinct requests whose outcome differs from the outcome of the same request with all constraints satisfied (the constraint decided)")
 	} else {
-		r.Rule("router histories interleaving registrations (static, optional-static, dynamic shadowing candidates, several methods and Any), Headers() calls and requests; request paths include every route's text used as a path (raw, canonical, with '?'), instances, extra leading slashes, trailing slash, empty path, escapes. Oracle: route.Tree.Match on a twin tree per method that receives the same AddRoute / SetHeaderMatcher calls in the same order; with hooks the whole shortcut table is enumerated after every step and compared with tree matching on the router's own tree. non-trivial = distinct requests answered through the shortcut (path equals a table key) or differing from a key only by slashes or '?'")
+		r.Rule("router histories interleaving registrations (static, optional-static, dynamic shadowing candidates, several methods and Any), Headers() calls and requests; request paths include every route's text used as a path (raw, canonical, with '?'), instances, extra leading slashes, trailing slash, empty path, escapes. Oracle: route.Tree.Match on a twin tree per method that receives the same AddRoute / SetHeaderMatcher calls in the same order; with hooks the whole shortcut table is enumerated after every step and compared with tree matching on the router's own tree. One (thorough: three) instance with 257x257 (300x300, 363x363) fully static routes of one method, every one requested by its exact text. non-trivial = distinct requests answered through the shortcut (path equals a table key) or differing from a key only by slashes or '?'")
 	}
 	r.Assume("single-valued request headers (http.Header.Get's first-value rule is not judged)")
 	histCanaries(r)
@@ -317,6 +375,16 @@ func runHist(r *core.Run, prop string) {
 		if hooksCompiled {
 			r.GateCounter("table-entries-enumerated", 5000)
 		}
+		grids := []gridCase{{257, "GET"}}
+		if r.Thorough() {
+			grids = []gridCase{{257, "GET"}, {300, "POST"}, {363, "DELETE"}}
+		}
+		r.Parallel("grid", len(grids), func(w *core.W, _ *rand.Rand, i int) {
+			c := grids[i]
+			w.Begin("grid", &c)
+			judgeGrid(w, &c)
+		})
+		r.GateCounter("grid-requests", 66049)
 	}
 }
 
